@@ -195,6 +195,28 @@ func hasGroupLabelsAlias(docs []parser.VerifDoc) bool {
 	return found
 }
 
+// hasDoubleMerge: a mapping with more than one `<<` merge key.
+func hasDoubleMerge(docs []parser.VerifDoc) bool {
+	found := false
+	for _, d := range docs {
+		walkForest(d.Node, map[*yaml.Node]bool{}, func(n *yaml.Node) {
+			if n.Kind != yaml.MappingNode {
+				return
+			}
+			merges := 0
+			for i := 0; i+1 < len(n.Content); i += 2 {
+				if k := n.Content[i]; k.Kind == yaml.ScalarNode && k.Value == "<<" && k.ShortTag() == "!!merge" {
+					merges++
+				}
+			}
+			if merges > 1 {
+				found = true
+			}
+		})
+	}
+	return found
+}
+
 func hasAliasOrMerge(docs []parser.VerifDoc) bool {
 	found := false
 	for _, d := range docs {
@@ -395,6 +417,8 @@ func runC01(args []string) int {
 				known = "C01-null-tag-text"
 			case hasGroupLabelsAlias(docs):
 				known = "C01-group-labels-alias"
+			case hasDoubleMerge(docs):
+				known = "C01-double-merge"
 			}
 			if known != "" {
 				rep.failKnown(fmt.Sprint(id), what, kept, known)
